@@ -332,6 +332,22 @@ def response_part(job, r):
             r.count('conf_bitflips_tried')
             if q.rc == 0:
                 r.viol('response:conf:v2:bitflip-delivered', 'configuration response with bit %d flipped delivered: %s' % (pos, q.get('config')), 'key=%s' % key.hex())
+        # aggregator and extender configured with different algorithms: each blocking client must insist on its own
+        other = rng.choice([a for a in (1, 4, 5) if a != alg])
+        w.cmd('opt 0 ext_hmac %d' % other)
+        for svc, own, foreign in (('aggr', alg, other), ('ext', other, alg)):
+            w.kind = svc
+            for mac_alg, must in ((own, True), (foreign, False)):
+                def rep(req, svc=svc, mac_alg=mac_alg):
+                    el = S.conf_elem('aggr', 2, max_level=17, max_req=10) if svc == 'aggr' else S.conf_elem('ext', 2, max_req=10, cal_last=1700000000)
+                    return S.wrap_v2(S.AGGR_RESP_V2 if svc == 'aggr' else S.EXT_RESP_V2, [el], key, mac_alg)
+                w.next_reply = rep
+                q = w.cmd('getconf 0 %s' % svc)
+                r.observe(('conf-alg', svc, must, q.rc == 0))
+                r.count('conf_algorithm_cases')
+                if (q.rc == 0) != must:
+                    r.viol('response:conf:%s:%s' % (svc, 'own-algorithm-refused' if must else 'other-services-algorithm-delivered'),
+                           '%s configuration response MACed with algorithm %d (%s configured: %d, other service: %d): rc=%#x' % (svc, mac_alg, svc, own, foreign, q.rc), 'key=%s' % key.hex())
         w.close(r)
 
 
@@ -345,14 +361,19 @@ def async_conf_part(job, r):
     sess = net.Session(exe, env, work, None)
     c = sess.cmd
     variants = [(svc, how, cb) for svc in ('sign', 'hasign') for how in ('requested', 'pushed', 'pushed-with-response') for cb in ('ctx', 'service')]
+    variants += [(svc, 'pushed', cb) for svc in ('extend', 'haextend') for cb in ('ctx', 'service')]
     rng.shuffle(variants)
     for svc, how, cb in variants:
         key = mk_key(rng, rng.choice([1, 8, 64, 65]))
-        alg = rng.choice([1, 4, 5])
+        # the aggregator and the extender are configured with DIFFERENT algorithms; each service must use its own
+        alg, other_alg = rng.choice([(1, 4), (4, 1), (5, 1), (1, 5), (4, 5)])
+        isext = 'extend' in svc
         h = gen.rnd_imprint(rng, 1)
         sg = small_sig(rng, h)
 
         def reply(req, mutate=None, **kw):
+            if isext:
+                return S.wrap_v2(S.EXT_RESP_V2, [S.conf_elem('ext', 2, max_req=10, cal_first=1000, cal_last=1700000000)], key, alg, **kw)
             payload = [S.conf_elem('aggr', 2, max_level=17, aggr_algo=1, aggr_period=1000, max_req=10)]
             if how == 'pushed-with-response':
                 payload = [R.T(2, S.aggr_payload(req['req_id'], sg, 0))] + payload
@@ -361,18 +382,21 @@ def async_conf_part(job, r):
         def trial(make):
             """-> (delivered configs, callbacks, signatures returned)"""
             c('ctx 0')
-            c('opt 0 aggr_hmac %d' % alg)
+            c('opt 0 %s_hmac %d' % ('ext' if isext else 'aggr', alg))
+            c('opt 0 %s_hmac %d' % ('aggr' if isext else 'ext', other_alg))
             if cb == 'ctx':
                 c('set_conf_cb 0')
             sess.conf_callbacks = []
             c('clock 1700000000')
             c('async_new 0 0 %s' % svc)
             c('net_ep cfg.example 1 connect=0 send=- recv=-')
-            c('async_endpoint 0 %s ksi+tcp://cfg.example:1 anon %s' % ('add' if svc == 'hasign' else 'set', key.decode('latin1')))
+            c('async_endpoint 0 %s ksi+tcp://cfg.example:1 anon %s' % ('add' if svc.startswith('ha') else 'set', key.decode('latin1')))
             c('async_opt 0 cache_size 4')
             if cb == 'service':
                 c('async_pushconf 0')
-            if how == 'requested':
+            if isext:
+                q = c('async_add 0 0 ext 1500000000 - t1')
+            elif how == 'requested':
                 q = c('async_add 0 0 signconf t1')
             else:
                 q = c('async_add 0 0 sign %s 0 t1' % h.hex())
@@ -392,7 +416,7 @@ def async_conf_part(job, r):
                     for fd, info in list(sess.tcp.items()):
                         if isinstance(fd, int) and info['open'] and info['sent']:
                             try:
-                                req = S.parse_request(bytes(info['sent']), 'aggr', 2)
+                                req = S.parse_request(bytes(info['sent']), 'ext' if isext else 'aggr', 2)
                             except S.BadRequest:
                                 continue
                             info['sent'] = bytearray()
@@ -411,7 +435,7 @@ def async_conf_part(job, r):
         confs, cbs, sigs, _ = t
         got = confs + cbs
         r.observe((label, 'honest', bool(got)))
-        if not got or not any('ml:17' in x for x in got):
+        if not got or not any(('mr:10' in x or 'ml:17' in x) for x in got):
             r.viol('response:async-conf:%s:honest-not-delivered' % label, 'authentic configuration not delivered: handles %s callbacks %s' % (confs, cbs), 'key=%s' % key.hex())
             continue
         r.count('async_conf_honest_delivered')
@@ -438,7 +462,7 @@ def async_conf_part(job, r):
                 if kind == 'no-header':
                     return reply(req, header=False)
                 if kind == 'other-alg':
-                    return reply(req, mac_alg=4 if alg != 4 else 1)
+                    return reply(req, mac_alg=other_alg)       # a valid MAC under the right key, computed with the algorithm configured for the OTHER service
                 return reply(req)[:arg]
             t = trial(make)
             if t is None:
